@@ -242,6 +242,17 @@ func genConstraintsFor(c *core.Ctx, kind string) string {
 			items = append(items, []string{"required", "eq=true"}[c.Rng.Intn(2)])
 		}
 	}
+	// order-sensitive lists: the constraints reach the validator in the order written
+	if c.Rng.Intn(5) == 0 {
+		switch kind {
+		case "int":
+			items = [][]string{{"omitempty", "min=3"}, {"omitempty", "gte=5"}, {"required", "min=3"}}[c.Rng.Intn(3)]
+		case "string":
+			items = [][]string{{"omitempty", "min=3"}, {"omitempty", "len=2"}, {"omitempty", "numeric"}}[c.Rng.Intn(3)]
+		case "ints":
+			items = [][]string{{"min=2", "dive", "min=1"}, {"omitempty", "min=2"}, {"required", "dive", "gt=0"}}[c.Rng.Intn(3)]
+		}
+	}
 	// "oneof=1 2 3" contains spaces, which the tag grammar would split into items; keep it out of multi-item lists
 	for i, it := range items {
 		if strings.HasPrefix(it, "oneof") {
